@@ -467,4 +467,9 @@ def classTable : ClassTable where
       ("torch.distributions.AffineTransform", ["loc", "scale", "event_dim", "cache_size"]),
       ("torchtree.evolution.tree_height_transform.DifferenceNodeHeightTransform", ["tree_model", "k", "cache_size"]) ]
 
+/-- the two pre-passes of `torchtree.torchtree.main`, IN THIS ORDER: comments (underscore keys, ignored objects) are removed
+first, plates are expanded in what is left - an ignored plate is never expanded -/
+def preprocess {ν : Type} [JNum ν] (steps fuel : Nat) (j : Json ν) : Except PlateErr (Json ν) :=
+  expandPlatesFuel steps fuel (removeComments j)
+
 end TT.C13
